@@ -307,17 +307,19 @@ func ruleQPRE(p *Program, r *Reporter) {
 		return
 	}
 	// the closure (or the function itself) that calls ConditionFunction.Evaluate
-	var evalSite ssa.Instruction // the MakeClosure (or the call) inside fn
-	for _, an := range fn.AnonFuncs {
-		for _, b := range an.Blocks {
-			for _, ins := range b.Instrs {
-				if c, ok := ins.(*ssa.Call); ok {
-					if sc := c.Call.StaticCallee(); sc != nil && sc.Name() == "Evaluate" && pkgOf(sc) == "ovsdb" {
-						// find its MakeClosure in fn
-						for _, b2 := range fn.Blocks {
-							for _, i2 := range b2.Instrs {
-								if mc, ok := i2.(*ssa.MakeClosure); ok && mc.Fn == an {
-									evalSite = mc
+	findEval := func(fn *ssa.Function) ssa.Instruction {
+		var evalSite ssa.Instruction // the MakeClosure (or the call) inside fn
+		for _, an := range fn.AnonFuncs {
+			for _, b := range an.Blocks {
+				for _, ins := range b.Instrs {
+					if c, ok := ins.(*ssa.Call); ok {
+						if sc := c.Call.StaticCallee(); sc != nil && sc.Name() == "Evaluate" && pkgOf(sc) == "ovsdb" {
+							// find its MakeClosure in fn
+							for _, b2 := range fn.Blocks {
+								for _, i2 := range b2.Instrs {
+									if mc, ok := i2.(*ssa.MakeClosure); ok && mc.Fn == an {
+										evalSite = mc
+									}
 								}
 							}
 						}
@@ -325,14 +327,35 @@ func ruleQPRE(p *Program, r *Reporter) {
 				}
 			}
 		}
-	}
-	if evalSite == nil {
-		for _, b := range fn.Blocks {
-			for _, ins := range b.Instrs {
-				if c, ok := ins.(*ssa.Call); ok {
-					if sc := c.Call.StaticCallee(); sc != nil && sc.Name() == "Evaluate" && pkgOf(sc) == "ovsdb" {
-						evalSite = c
+		if evalSite == nil {
+			for _, b := range fn.Blocks {
+				for _, ins := range b.Instrs {
+					if c, ok := ins.(*ssa.Call); ok {
+						if sc := c.Call.StaticCallee(); sc != nil && sc.Name() == "Evaluate" && pkgOf(sc) == "ovsdb" {
+							evalSite = c
+						}
 					}
+				}
+			}
+		}
+		return evalSite
+	}
+	entry := fn
+	var callToEval *ssa.Call // when the evaluation loop lives in a helper: the call of that helper
+	evalSite := findEval(fn)
+	if evalSite == nil {
+		for _, b := range entry.Blocks {
+			for _, ins := range b.Instrs {
+				c, ok := ins.(*ssa.Call)
+				if !ok {
+					continue
+				}
+				g := c.Call.StaticCallee()
+				if g == nil || g.Blocks == nil || pkgOf(g) != "cache" || isExportedEntry(g) {
+					continue
+				}
+				if es := findEval(g); es != nil && evalSite == nil {
+					evalSite, callToEval, fn = es, c, g
 				}
 			}
 		}
@@ -408,6 +431,31 @@ func ruleQPRE(p *Program, r *Reporter) {
 		ok2 := emptyCond(b) || (header.Dominates(b) && !inLoopOf(header, b))
 		r.Ob(id, funcName(fn), "successful return", retPos(ret, fn), ok2, true,
 			ifs(ok2, "results are returned only after the evaluation loop (or for an empty condition list)", "results can be returned before every condition was evaluated"))
+	}
+	if callToEval != nil {
+		// the loop lives in a helper: in RowsByCondition itself results are built and
+		// returned only after that helper returned (or for an empty condition list)
+		after := func(b *ssa.BasicBlock) bool {
+			return b == callToEval.Block() || callToEval.Block().Dominates(b)
+		}
+		for _, b := range entry.Blocks {
+			for _, ins := range b.Instrs {
+				if mu, ok := ins.(*ssa.MapUpdate); ok && guardedResult(mu.Map.Type()) {
+					n++
+					ok2 := emptyCond(b) || after(b)
+					r.Ob(id, funcName(entry), "row added to the result", mu.Pos(), ok2, true,
+						ifs(ok2, "rows enter the result only after "+funcName(fn)+" evaluated every condition", "a row is added to the result before "+funcName(fn)+" evaluated the conditions"))
+				}
+			}
+			ret, ok := b.Instrs[len(b.Instrs)-1].(*ssa.Return)
+			if !ok || len(ret.Results) == 0 || isRecoverBlock(b) || isNilConst(retValue(ret, 0)) {
+				continue
+			}
+			n++
+			ok2 := emptyCond(b) || after(b)
+			r.Ob(id, funcName(entry), "successful return", retPos(ret, entry), ok2, true,
+				ifs(ok2, "results are returned only after "+funcName(fn)+" evaluated every condition", "results can be returned before the conditions were evaluated"))
+		}
 	}
 	if n < 2 {
 		r.Anchor(id, fmt.Sprintf("RowsByCondition: %d result writes/returns, expected >= 2", n))
@@ -592,12 +640,66 @@ func selectFlagName(info *types.Info, e ast.Expr) string {
 // ---------------------------------------------------------------------------
 // PM-ONCE: one notification round per committed transaction
 
+// serverTransactBody: the function holding the body of the server's transact
+// handler (the call of transact, the error scan, notification and commit):
+// OvsdbServer.Transact itself, or the private helper it hands the work to;
+// via is then the call of that helper in Transact.
+func serverTransactBody(p *Program) (body *ssa.Function, via *ssa.Call) {
+	fn := p.Fn("server", "OvsdbServer", "Transact")
+	if fn == nil {
+		return nil, nil
+	}
+	callsTransact := func(g *ssa.Function) bool {
+		for _, b := range g.Blocks {
+			for _, ins := range b.Instrs {
+				if c, ok := ins.(*ssa.Call); ok {
+					if sc := c.Call.StaticCallee(); sc != nil && sc.Name() == "transact" && pkgOf(sc) == "server" {
+						return true
+					}
+				}
+			}
+		}
+		return false
+	}
+	if callsTransact(fn) {
+		return fn, nil
+	}
+	region := p.PrivateRegion(fn)
+	for _, b := range fn.Blocks {
+		for _, ins := range b.Instrs {
+			c, ok := ins.(*ssa.Call)
+			if !ok {
+				continue
+			}
+			if g := c.Call.StaticCallee(); g != nil && g != fn && region[g] && g.Parent() == nil && callsTransact(g) {
+				return g, c
+			}
+		}
+	}
+	return fn, nil
+}
+
 func rulePMONCE(p *Program, r *Reporter) {
 	const id = "PM-ONCE"
-	fn := p.Fn("server", "OvsdbServer", "Transact")
+	fn, via := serverTransactBody(p)
 	if fn == nil {
 		r.Anchor(id, "server.(*OvsdbServer).Transact")
 		return
+	}
+	if via != nil {
+		// the body lives in a helper: it is entered once, outside any loop
+		outer := via.Parent()
+		n := 0
+		for _, b := range outer.Blocks {
+			for _, ins := range b.Instrs {
+				if c, ok := ins.(ssa.CallInstruction); ok && c.Common().StaticCallee() == fn {
+					n++
+				}
+			}
+		}
+		okv := n == 1 && !newFlowCtx(outer).blockReach(via.Block(), via.Block())
+		r.Ob(id, funcName(outer), "transaction body entered once", via.Pos(), okv, true,
+			ifs(okv, funcName(fn)+" is called once, outside any loop", funcName(fn)+" is called more than once or inside a loop: a transaction is executed and notified more than once"))
 	}
 	fc := newFlowCtx(fn)
 	var calls []*ssa.Call
@@ -624,11 +726,13 @@ func rulePMONCE(p *Program, r *Reporter) {
 		return
 	}
 	ranges := 0
-	for _, b := range pm.Blocks {
-		for _, ins := range b.Instrs {
-			if rg, ok := ins.(*ssa.Range); ok {
-				if _, isMap := rg.X.Type().Underlying().(*types.Map); isMap {
-					ranges++
+	for g := range p.PrivateRegion(pm) {
+		for _, b := range g.Blocks {
+			for _, ins := range b.Instrs {
+				if rg, ok := ins.(*ssa.Range); ok {
+					if _, isMap := rg.X.Type().Underlying().(*types.Map); isMap {
+						ranges++
+					}
 				}
 			}
 		}
